@@ -1412,6 +1412,14 @@ class Interp:
                         if nv is not v:
                             fr.env[k] = nv
             return new
+        if isinstance(e.func, ast.Attribute) and \
+                e.func.attr in self.rebind_methods and \
+                not isinstance(e.func.value, ast.Name):
+            # builder-style method on an anonymous receiver
+            base = self.eval(e.func.value, fr)
+            if isinstance(base, T):
+                margs = [self.eval(a, fr) for a in e.args]
+                return self.rebind_methods[e.func.attr](self, base, margs)
         f = self.eval(e.func, fr)
         args = []
         for a in e.args:
